@@ -29,8 +29,9 @@ def _strip_shape(vn):
 
 
 class Facts(Walker):
-    def __init__(self, func: Func, prog, unit_params=(), callbacks=None, unit_summaries=None):
+    def __init__(self, func: Func, prog, unit_params=(), callbacks=None, unit_summaries=None, assume=None):
         super().__init__(func)
+        self.assume = dict(assume or {})      # parameter name -> assumed truth value (configuration-driven arms)
         self.prog = prog
         self.mod = func.module
         self.unit_params = set(unit_params)
@@ -82,6 +83,8 @@ class Facts(Walker):
                 out[k] = a | b
             elif a == b:
                 out[k] = a
+            elif k.startswith(("v:", "s:")) and isinstance(a, str) and isinstance(b, str):
+                out[k] = _phi(a, b)
         if "C" not in out:
             out["C"] = s1.get("C", frozenset()) | s2.get("C", frozenset())
         if "F" not in out:
@@ -140,6 +143,14 @@ class Facts(Walker):
             if node.attr == "T":
                 return "T(%s)" % base
             return "%s.%s" % (base, node.attr)
+        if isinstance(node, ast.Subscript) and isinstance(node.value, ast.Attribute) and node.value.attr in ("c_", "r_") and self.np_name(node.value):
+            elts = node.slice.elts if isinstance(node.slice, ast.Tuple) else [node.slice]
+            zeros = [e for e in elts if isinstance(e, ast.Call) and (self.np_name(e.func) or "").split(".")[-1] in ("zeros", "zeros_like")
+                     or (isinstance(e, ast.Constant) and e.value == 0)]
+            rest = [e for e in elts if e not in zeros]
+            if zeros and len(rest) == 1:
+                return "pad0(%s)" % self.vn(rest[0], st)
+            return "np.%s[%s]" % (node.value.attr, ",".join(self.vn(e, st) for e in elts))
         if isinstance(node, ast.Subscript):
             base = self.vn(node.value, st)
             sl = node.slice
@@ -184,7 +195,7 @@ class Facts(Walker):
         if npn is not None:
             last = npn.split(".")[-1]
             if last == "norm" and args:
-                return "norm(%s)" % self.vn(args[0], st)
+                return norm_of(self.vn(args[0], st))
             if last in VALUE_PRESERVING_NP and args:
                 return self.vn(args[0], st)
             return "np.%s(%s)" % (npn, ",".join(self.vn(a, st) for a in args if not isinstance(a, ast.Starred)))
@@ -208,6 +219,8 @@ class Facts(Walker):
 
     # ---- conditions
     def split(self, test, st):
+        if isinstance(test, ast.Name) and test.id in self.assume and st.get("v:" + test.id) == "P:" + test.id:
+            return (dict(st), None) if self.assume[test.id] else (None, dict(st))
         t, f = dict(st), dict(st)
         self.refine(test, t, True)
         self.refine(test, f, False)
@@ -241,6 +254,7 @@ class Facts(Walker):
                 vn = self.vn(left, st)
                 if isinstance(op, ast.Gt) and truth:
                     self.add(st, "NZ", vn)
+                    self.add(st, "NZS", vn)       # NaN-safe: NaN > 0 is False
                 elif isinstance(op, ast.Lt) and truth:
                     self.add(st, "NZ", vn)
                 elif isinstance(op, ast.NotEq) and truth:
@@ -267,6 +281,7 @@ class Facts(Walker):
                     c = inner.operand
                     if isinstance(c, ast.Compare) and isinstance(c.ops[0], ast.Gt) and _is_zero(c.comparators[0]) and not truth:
                         self.add(st, "NZ", self.vn(c.left, st))
+                        self.add(st, "NZS", self.vn(c.left, st))
                 if isinstance(inner, ast.Compare) and isinstance(inner.ops[0], ast.Eq) and _is_zero(inner.comparators[0]) and not truth:
                     self.add(st, "NZ", self.vn(inner.left, st))
             return
@@ -309,8 +324,14 @@ class Facts(Walker):
 
     def bind(self, t, value_node, val, st, stmt):
         if isinstance(t, ast.Name):
+            # facts about the right-hand side are derived in the state *before* the name is rebound
+            unit = value_node is not None and self.is_unit(value_node, st)
+            cplx = value_node is not None and self.is_complex(value_node, st)
             st["v:" + t.id] = val
-            self.derive(val, value_node, st)
+            if unit:
+                self.add(st, "UNIT", val)
+            if cplx:
+                st["C"] = st["C"] | {val}
         elif isinstance(t, (ast.Tuple, ast.List)):
             if isinstance(value_node, (ast.Tuple, ast.List)) and len(value_node.elts) == len(t.elts):
                 for e, v in zip(t.elts, value_node.elts):
@@ -385,7 +406,7 @@ class Facts(Walker):
 
     def derive_binop(self, new, op, l, r, st, left_node=None, typed=None, inplace=False):
         # x / norm(x)  (self-normalisation)
-        if op == "Div" and r == "norm(%s)" % l:
+        if op == "Div" and r == norm_of(l):
             self.add(st, "UNIT", new)
         if l in st["C"] or r in st["C"]:
             st["C"] = st["C"] | {new}
@@ -399,7 +420,7 @@ class Facts(Walker):
             return True
         if isinstance(node, ast.BinOp) and isinstance(node.op, ast.Div):
             l, r = self.vn(node.left, st), self.vn(node.right, st)
-            if r == "norm(%s)" % l:
+            if r == norm_of(l):
                 return True
             # x / norm(x, axis=1)[:, None] handled by value-preserving shape indexing
         if isinstance(node, ast.BinOp) and isinstance(node.op, (ast.Add, ast.Sub)):
@@ -422,8 +443,8 @@ class Facts(Walker):
         if isinstance(node, ast.Call):
             f = node.func
             npn = self.np_name(f)
-            if npn is not None and npn.split(".")[-1] in VALUE_PRESERVING_NP and node.args:
-                return self.is_unit(node.args[0], st, depth + 1)
+            if npn is not None and npn.split(".")[-1] in (VALUE_PRESERVING_NP | {"roll", "flip"}) and node.args:
+                return self.is_unit(node.args[0], st, depth + 1)      # permutations keep the norm
             r = self._resolve(f)
             if isinstance(r, Class) and r.name == "Quaternion":
                 # versor defaults to True; versor=False explicitly disables normalisation
@@ -554,6 +575,37 @@ class Facts(Walker):
 
     def unbind_const(self, name, st):
         st.pop("v:" + name, None)
+
+
+PHI = {}      # phi name -> frozenset of member value numbers
+
+
+def _phi(a, b):
+    import hashlib
+    parts = set()
+    for x in (a, b):
+        # absorb: phi{x, ...} joined with x again is the same phi
+        if x in PHI and (b if x is a else a) in PHI[x]:
+            return x
+        parts.add(x)
+    members = frozenset(parts)
+    name = "phi:" + hashlib.md5(" | ".join(sorted(members)).encode()).hexdigest()[:10]
+    PHI[name] = members
+    return name
+
+
+def norm_of(vn):
+    """canonical value number of the Euclidean norm of ``vn``: zero padding and join of norm-equal alternatives are transparent"""
+    def core(x):
+        while x.startswith("pad0(") and x.endswith(")"):
+            x = x[5:-1]
+        return x
+    vn = core(vn)
+    if vn in PHI:
+        cores = {core(p) for p in PHI[vn]}
+        if len(cores) == 1:
+            return "norm(%s)" % cores.pop()
+    return "norm(%s)" % vn
 
 
 def _shape_only(sl):
